@@ -6,6 +6,7 @@ import (
 
 	"github.com/alpacahq/marketstore/v4/plugins/trigger"
 	"github.com/alpacahq/marketstore/v4/utils/log"
+	"github.com/alpacahq/marketstore/v4/utils/verifhook"
 )
 
 type TriggerPluginDispatcher struct {
@@ -61,6 +62,7 @@ func (tpd *TriggerPluginDispatcher) AppendRecord(keyPath string, record []byte) 
 // run in a separate goroutine and recovers from panics in the triggers.
 func (tpd *TriggerPluginDispatcher) DispatchRecords() {
 	for key, records := range tpd.m {
+		verifhook.At("tpd.dispatch")
 		tpd.c <- writtenRecords{key: key, records: records}
 	}
 	tpd.m = nil // for GC
